@@ -43,7 +43,7 @@ from prompt_toolkit.validation import ValidationError, Validator
 
 ID = "C05"
 DRIVER = "drv_c05"
-PROPS = ["Ptk.Props.C05", "Ptk.Props.C05Skel"]
+PROPS = ["Ptk.Props.C05", "Ptk.Props.C05Skel", "Ptk.Props.C05Api"]
 ANCHORS = ["src/prompt_toolkit/buffer.py", "src/prompt_toolkit/key_binding/key_processor.py",
            "src/prompt_toolkit/key_binding/vi_state.py", "src/prompt_toolkit/key_binding/bindings/vi.py",
            "src/prompt_toolkit/key_binding/bindings/emacs.py", "src/prompt_toolkit/key_binding/bindings/basic.py",
@@ -55,7 +55,7 @@ ANCHORS = ["src/prompt_toolkit/buffer.py", "src/prompt_toolkit/key_binding/key_p
 TECHNIQUE = ("Lean 4 proof over hand-written executable models (the editor's choke points; the MODE SKELETON run over the "
              "regenerated table of all key bindings) + differential correspondence, API-trace refinement and per-key "
              "skeleton refinement against the real editor + key-sequence search (partial)")
-LEVEL_TEXT = ("PARTIAL. Two Lean 4 models, both tied to /repo on every run. (1) MODE SKELETON: the projection of the editor "
+LEVEL_TEXT = ("PARTIAL. Three Lean 4 models, all tied to /repo on every run. (1) MODE SKELETON: the projection of the editor "
               "to (Vi input mode, temporary navigation mode, pending operator + count, digraph wait + symbol, selection "
               "type / shift mode of the default and the search buffer, quoted insert, Vi/Emacs macro recording, numeric "
               "argument, search focus, key buffer, input queue); the model runs KeyProcessor._process / process_keys / "
@@ -74,7 +74,23 @@ LEVEL_TEXT = ("PARTIAL. Two Lean 4 models, both tied to /repo on every run. (1) 
               "Buffer state-writing API 0 <= cursor <= len(text), selection anchor and multiple cursors stay inside the "
               "text, undo/redo never build an ill-formed Document; _fix_vi_cursor_position after an arbitrary handler; "
               "input_mode=NAVIGATION clears operator and digraph; EditReadOnlyBuffer never leaves _call_handler; accept "
-              "hands exactly the buffer text to exit(). Tie: differential correspondence of the API, replay of every API "
+              "hands exactly the buffer text to exit(). (3) EXTENDED BUFFER API with all integer arguments (negative, zero, "
+              "oversized counts and indices; Python wrap-around indexing and slicing; assert / IndexError as outcomes): "
+              "yank_nth_arg / yank_last_arg with YankNthArgState and the _QUOTED_WORDS_RE split, auto_up / auto_down, "
+              "cursor_up / cursor_down, completions (_set_completions, go_to_completion with go_to_index / "
+              "new_text_and_position, complete_next / previous, cancel, apply_completion), copy / cut_selection, "
+              "paste_clipboard_data, transform_lines / current_line / region, join_next_line / join_selected_lines, "
+              "swap_characters_before_cursor, newline / insert_line_above / below, the text coming back from "
+              "open_in_editor. PROVED: every program over this API keeps cursor, anchor, multiple cursors inside the text "
+              "and the selected completion inside the completion list, and NO call ends with anything but a normal "
+              "return or EditReadOnlyBuffer - with no precondition at all for the methods handlers reach with an "
+              "arbitrary numeric argument (auto_up, auto_down, yank_nth_arg, yank_last_arg, history_forward / backward, "
+              "go_to_history, cursor moves, inserts, deletes, joins, swaps, undo / redo: words[state.n], "
+              "history_strings[new_pos], completions[index] are never indexed out of range), and inside the asserted "
+              "domain for the others (transform_region from < to, go_to_completion index in range, complete_next / "
+              "previous count >= 0, cursor_up / down count >= 1, join_selected_lines with a selection, "
+              "apply_completion start_position <= 0); outside the domain the model asserts exactly where the code does "
+              "(witness theorems). Tie: differential correspondence of the API, replay of every API "
               "call the real handlers make, and after EVERY key of every session the model's skeleton, the handlers it "
               "dispatched and its filter values are compared with the real editor. Crash-freedom ('no exception "
               "escapes') and the cursor invariants of the individual key handlers are decided by SEARCH only "
@@ -85,7 +101,11 @@ LEVEL_NOTE = ("trusted: Lean kernel, axioms propext/Classical.choice/Quot.sound 
               "moved, application finished) and the values of the filter atoms it does not evaluate itself - the theorems "
               "hold for every value of them; the AST pin of the writes that by-pass the Buffer API; the key-sequence "
               "part is search, not proof")
-RULE = ("api: every single op from every small state (exhaustive), then seeded random API programs; call: random "
+RULE = ("api: every single op from every small state (exhaustive), then seeded random API programs; api2: every "
+        "single call of the extended API with integer arguments from {-7,-2,-1,0,1,2,3,9} (and all pairs for "
+        "transform_region) from sampled small states (text x cursor x history x read-only x selection x completion "
+        "/ yank state), then seeded random programs mixing old and new calls; every exception class is compared; "
+        "qw: the _QUOTED_WORDS_RE scanner against re; call: random "
         "handler programs through the real KeyProcessor._call_handler under random Vi states; accept: "
         "validate_and_handle with/without a failing validator; keys: every single bound key and (thorough) every "
         "key pair from Vi navigation / Vi insert / Emacs states, then seeded random key sequences (length <= 60, "
@@ -131,6 +151,10 @@ TRUSTED = ["harness/c05.py + c05_editor.py: the tracing Buffer subclass logs eve
            "control flow and early returns, plus the body of the Vi operator function a binding closes over) which handler_writes_pin compares with the text each hand-written class was read off; the "
            "driver resolves atoms and handlers by NAME (theorems: by position, equal when atom_names_pin / "
            "handler_names_pin hold)",
+           "Ptk/Model/C05Api.lean is a hand translation of the Buffer methods listed under (3); the scanner for "
+           "_QUOTED_WORDS_RE is compared with `re` on every string over a 6-symbol alphabet up to length 5 (quick) / 6 "
+           "(thorough) and the pattern string is pinned (quoted_words_re_pin); the runtime character classes (regex \\s, "
+           "str.isspace, splitlines breaks) are parameters of the theorems, the driver uses Gen/PyChars",
            "Gen/C05.lean: AST scan of /repo for writes to Buffer private state / selection anchor / multiple cursors "
            "outside buffer.py, pinned by theorem bypass_pin",
            "the default key bindings object is shared between the Applications of one harness process (same "
@@ -148,7 +172,14 @@ ASSUMPTIONS = ["CPython str/list/deque semantics",
                "a pending multi-key binding (f<Esc>, \"<Esc>...) is a recorded known finding (Lean: "
                "escape_any_slot_witness)",
                "key sessions run without a renderer (DummyOutput), timeouts are injected as explicit <flush> keys"]
-PARTIAL_SCOPE = ["SEARCH, not proof: 'no exception escapes', and the cursor / anchor / multiple-cursor invariants of the "
+PARTIAL_SCOPE = ["extended API: results of Document queries that live in document.py (cursor up / down position, "
+                 "cut_selection, paste_clipboard_data, the margin of the current line) and of user callbacks "
+                 "(transform_*) are arguments of the model (any value; Documents handed in must be well formed); "
+                 "go_to_history with a negative index, indent / unindent / reshape_text, start_history_lines_completion "
+                 "and the asynchronous completer / validator / suggester are not modelled; that a key handler stays "
+                 "inside the asserted domains (Vi numeric arguments are >= 1; completion.py / menus.py pass counts >= 0) "
+                 "is read off the callers, not proved",
+                 "SEARCH, not proof: 'no exception escapes', and the cursor / anchor / multiple-cursor invariants of the "
                  "individual key handlers (~600 bindings), are only explored by enumerated/random key sequences on the "
                  "real editor",
                  "the skeleton theorems are about the MODEL of the key state machine; what each handler does to the text "
@@ -206,7 +237,15 @@ MODELLED = {
         "Buffer._text_changed", "Buffer.save_to_undo_stack", "Buffer.undo", "Buffer.redo", "Buffer.start_selection",
         "Buffer.exit_selection", "Buffer.copy_selection", "Buffer.insert_text", "Buffer.delete",
         "Buffer.delete_before_cursor", "Buffer._set_history_search", "Buffer._history_matches",
-        "Buffer.history_forward", "Buffer.history_backward", "Buffer.go_to_history", "Buffer.validate_and_handle"],
+        "Buffer.history_forward", "Buffer.history_backward", "Buffer.go_to_history", "Buffer.validate_and_handle",
+        "Buffer._cursor_position_changed", "Buffer.yank_nth_arg", "Buffer.yank_last_arg", "Buffer.auto_up",
+        "Buffer.auto_down", "Buffer.cursor_up", "Buffer.cursor_down", "Buffer.cut_selection",
+        "Buffer.paste_clipboard_data", "Buffer.transform_lines", "Buffer.transform_current_line",
+        "Buffer.transform_region", "Buffer.join_next_line", "Buffer.join_selected_lines",
+        "Buffer.swap_characters_before_cursor", "Buffer.newline", "Buffer.insert_line_above",
+        "Buffer.insert_line_below", "Buffer._set_completions", "Buffer.go_to_completion", "Buffer.complete_next",
+        "Buffer.complete_previous", "Buffer.cancel_completion", "Buffer.apply_completion",
+        "CompletionState.go_to_index", "CompletionState.new_text_and_position", "YankNthArgState.__init__"],
     "src/prompt_toolkit/shortcuts/prompt.py": ["PromptSession._create_default_buffer.accept"],
 }
 
@@ -450,6 +489,239 @@ def model_lines_api(case):
         out.append(il)
         out += ["op 0 " + op_tokens(op) for op in case["ops"]]
     return out
+
+
+# =====================================================================================
+# kind "api2": the rest of the Buffer API the handlers call (lean/Ptk/Model/C05Api.lean), with ALL integer
+# arguments (negative / zero / oversized counts and indices); kind "qw": the _QUOTED_WORDS_RE scanner
+# =====================================================================================
+PASTE_MODES = ["EMACS", "VI_AFTER", "VI_BEFORE"]
+# (op, condition) outside the domain of the totality theorem `api2_total` (Op2.pre): the exception is expected
+_API2_RESULT: dict = {}
+
+
+def enc_state2(b: Buffer) -> str:
+    y = b.yank_nth_arg_state
+    ys = "N" if y is None else f"{y.history_position},{y.n},{enc_str(y.previous_inserted_word)}"
+    c = b.complete_state
+    if c is None:
+        cs = "N"
+    else:
+        idx = "N" if c.complete_index is None else str(c.complete_index)
+        cs = (f"{enc_str(c.original_document.text)}@{c.original_document.cursor_position};{idx};{len(c.completions)}"
+              + "".join(f";{enc_str(x.text)}:{x.start_position}" for x in c.completions))
+    return f"{enc_state(buf_state(b))} Y={ys} C={cs}"
+
+
+def make_buffer2(init) -> Buffer:
+    from prompt_toolkit.history import InMemoryHistory
+    ro, hs = bool(init["ro"]), bool(init["hs"])
+    h = InMemoryHistory()
+    for x in init["hist"]:
+        h.append_string(x)
+    b = Buffer(read_only=Condition(lambda: ro), enable_history_search=Condition(lambda: hs), history=h)
+    set_buffer(b, init)
+    if init.get("sel") is not None:
+        b.selection_state = SelectionState(init["sel"][0], SELT[init["sel"][1]])
+    return b
+
+
+def init2_line(init):
+    sel = "N" if init.get("sel") is None else f"{init['sel'][0]} {init['sel'][1]}"
+    return (f"init2 {len(init['lines'])} " + " ".join(enc_str(l) for l in init["lines"])
+            + f" {init['idx']} {init['cur']} {enc_bool(init['ro'])} {enc_bool(init['hs'])} {len(init['hist'])}"
+            + "".join(" " + enc_str(h) for h in init["hist"]) + " " + sel)
+
+
+def _compl(text, start):
+    """a Completion (its constructor asserts start_position <= 0; a positive one is passed as a plain object)"""
+    from prompt_toolkit.completion import Completion
+    if start <= 0:
+        return Completion(text, start_position=start)
+    import types
+    return types.SimpleNamespace(text=text, start_position=start, display=text, display_meta="")
+
+
+def api2_step(b: Buffer, op):
+    """-> (protocol line for the model, callable that performs the call on the real Buffer)"""
+    from prompt_toolkit.clipboard import ClipboardData
+    from prompt_toolkit.selection import PasteMode
+    k = op[0]
+    d = b.document
+    if k == "old":
+        return "op2 old " + op_tokens(op[1]), (lambda: real_buf_op(b, op[1]))
+    if k == "yank":
+        return f"op2 yank {enc_opt_int(op[1])} {enc_bool(op[2])}", (lambda: b.yank_nth_arg(n=op[1], _yank_last_arg=bool(op[2])))
+    if k == "setc":
+        cs = [_compl(t, st) for t, st in op[1]]
+        return (f"op2 setc {len(cs)}" + "".join(f" {enc_str(t)} {st}" for t, st in op[1]),
+                (lambda: b._set_completions(cs)))
+    if k == "gotoc":
+        return f"op2 gotoc {enc_opt_int(op[1])}", (lambda: b.go_to_completion(op[1]))
+    if k == "cnext":
+        return f"op2 cnext {op[1]} {enc_bool(op[2])}", (lambda: b.complete_next(count=op[1], disable_wrap_around=bool(op[2])))
+    if k == "cprev":
+        return f"op2 cprev {op[1]} {enc_bool(op[2])}", (lambda: b.complete_previous(count=op[1], disable_wrap_around=bool(op[2])))
+    if k == "ccancel":
+        return "op2 ccancel", b.cancel_completion
+    if k == "capply":
+        c = _compl(op[1], op[2])
+        return f"op2 capply {enc_str(op[1])} {op[2]}", (lambda: b.apply_completion(c))
+    if k in ("updown", "aup", "adown"):
+        count = op[1]
+        col = b.preferred_column or d.cursor_position_col
+        up = (k == "aup") if k != "updown" else bool(op[2])
+        eff_up, n = (up, count) if count >= 1 else (not up, -count)
+        if n >= 1:
+            dd = (d.get_cursor_up_position if eff_up else d.get_cursor_down_position)(count=n, preferred_column=col)
+        else:
+            dd = 0
+        if k == "updown":
+            return f"op2 updown {count} {dd}", (lambda: (b.cursor_up if up else b.cursor_down)(count=count))
+        fn = b.auto_up if k == "aup" else b.auto_down
+        return (f"op2 {k} {count} {enc_bool(op[2])} {dd}",
+                (lambda: fn(count=count, go_to_start_of_line_if_history_changes=bool(op[2]))))
+    if k == "copysel":
+        nd, _ = d.cut_selection()
+        return (f"op2 copysel {enc_bool(op[1])} {enc_str(nd.text)} {nd.cursor_position}",
+                (lambda: b.copy_selection(_cut=bool(op[1]))))
+    if k == "paste":
+        data = ClipboardData(op[1], SELT[op[2]])
+        mode = PasteMode[PASTE_MODES[op[3]]]
+        nd = d.paste_clipboard_data(data, paste_mode=mode, count=op[4])
+        return (f"op2 paste {enc_str(nd.text)} {nd.cursor_position}",
+                (lambda: b.paste_clipboard_data(data, paste_mode=mode, count=op[4])))
+    if k == "tcl":
+        return f"op2 tcl {enc_str(op[1])}", (lambda: b.transform_current_line(lambda s_: op[1]))
+    if k == "treg":
+        return f"op2 treg {op[1]} {op[2]} {enc_str(op[3])}", (lambda: b.transform_region(op[1], op[2], lambda s_: op[3]))
+    if k == "joinn":
+        return f"op2 joinn {enc_str(op[1])}", (lambda: b.join_next_line(separator=op[1]))
+    if k == "joins":
+        return f"op2 joins {enc_str(op[1])}", (lambda: b.join_selected_lines(separator=op[1]))
+    if k == "swap":
+        return "op2 swap", b.swap_characters_before_cursor
+    if k in ("nl", "ila", "ilb"):
+        m = d.leading_whitespace_in_current_line if op[1] else ""
+        fn = {"nl": b.newline, "ila": b.insert_line_above, "ilb": b.insert_line_below}[k]
+        return f"op2 {k} {enc_str(m)}", (lambda: fn(copy_margin=bool(op[1])))
+    if k == "edres":
+        def edres():
+            # the tail of Buffer.open_in_editor.run (the editor itself is not started)
+            text = op[1]
+            if text.endswith("\n"):
+                text = text[:-1]
+            b.document = Document(text=text, cursor_position=len(text))
+        return f"op2 edres {enc_str(op[1])}", edres
+    if k == "tl":
+        return None, None
+    raise ValueError(op)
+
+
+def api2_expected_exception(b, op) -> bool:
+    """the call is outside the domain of the totality theorem (`Op2.pre`): an exception is expected"""
+    k = op[0]
+    if k == "old":
+        return op[1][0] in ("doc", "reset", "widx", "search", "cutsel")
+    if k == "treg":
+        return not op[1] < op[2]
+    if k == "gotoc":
+        cs = b.complete_state
+        return cs is None or (bool(cs.completions) and op[1] is not None and not 0 <= op[1] < len(cs.completions))
+    if k in ("cnext", "cprev"):
+        return op[1] < 0
+    if k == "updown":
+        return op[1] < 1
+    if k == "joins":
+        return b.selection_state is None
+    if k == "capply":
+        return op[2] > 0
+    if k == "setc":
+        return False
+    return False
+
+
+def run_api2(case):
+    key = case_key(case)
+    if key in _API2_RESULT:
+        return _API2_RESULT[key]
+    model, impl, viol = [], [], []
+    init = case["init"]
+
+    def other_exc(fn):
+        try:
+            return outcome_of(fn)
+        except Exception as e:  # noqa: anything else is reported with its type
+            return "err:" + type(e).__name__
+
+    def comp_ok(b):
+        cs = b.complete_state
+        return cs is None or cs.complete_index is None or 0 <= cs.complete_index < len(cs.completions)
+
+    def one(b, op):
+        if op[0] == "tl":
+            model.append("tl " + enc_str(op[1]) + "".join(f" {i}" for i in op[2]))
+            try:
+                impl.append(enc_str(b.transform_lines(op[2], lambda l: op[1] + l)))
+            except Exception as e:  # noqa
+                impl.append("err:" + type(e).__name__)
+                viol.append({"signature": f"Buffer API transform_lines | {type(e).__name__}", "msg": f"{op} from {init}"})
+            return
+        expected = api2_expected_exception(b, op)
+        try:
+            line, call = api2_step(b, op)
+        except Exception as e:  # noqa: a Document query of document.py (cut_selection / paste / cursor up) failed
+            viol.append({"signature": f"Document query for Buffer API {op[0]} | {type(e).__name__}",
+                         "msg": f"op {op} from init {init}: {str(e)[:120]}"})
+            return
+        model.append(line)
+        o = other_exc(call)
+        impl.append(f"{o} {enc_state2(b)}")
+        name = op[0] if op[0] != "old" else op[1][0]
+        if o in ("ok", "ro"):
+            for x in buffer_invariant_violations(b, "Buffer API " + name):
+                x["msg"] += f" after op {op} from init {init}"
+                viol.append(x)
+            if not comp_ok(b):
+                viol.append({"signature": f"Buffer API {name} | completion index out of range", "msg": f"{op} from {init}"})
+        elif not expected:
+            viol.append({"signature": f"Buffer API {name} | {o[4:]} for arguments in the domain of the method",
+                         "msg": f"op {op} from init {init}"})
+
+    if case.get("fresh"):
+        for pre, op in case["ops"]:
+            b = make_buffer2(init)
+            model.append(init2_line(init))
+            impl.append(enc_state2(b))
+            for p_ in pre:
+                one(b, p_)
+            one(b, op)
+    else:
+        b = make_buffer2(init)
+        model.append(init2_line(init))
+        impl.append(enc_state2(b))
+        for op in case["ops"]:
+            one(b, op)
+    res = (model, impl, viol)
+    if len(_API2_RESULT) > 8:
+        _API2_RESULT.clear()
+    _API2_RESULT[key] = res
+    return res
+
+
+def qw_real(line: str):
+    from prompt_toolkit.buffer import _QUOTED_WORDS_RE
+    words = [w.strip() for w in _QUOTED_WORDS_RE.split(line)]
+    return [w for w in words if w]
+
+
+def run_qw(case):
+    model = ["qw " + enc_str(t) for t in case["texts"]]
+    impl = []
+    for t in case["texts"]:
+        ws = qw_real(t)
+        impl.append(" ".join([str(len(ws))] + [enc_str(w) for w in ws]))
+    return model, impl, []
 
 
 # =====================================================================================
@@ -1025,6 +1297,10 @@ def model_lines(case):
         return model_lines_api(case)
     if k == "call":
         return model_lines_call(case)
+    if k == "api2":
+        return run_api2(case)[0]
+    if k == "qw":
+        return run_qw(case)[0]
     if k == "keys":
         p = _pre(case)
         if p is not None and not p["div"]:
@@ -1039,6 +1315,10 @@ def impl_lines(case):
         return run_api(case)[0]
     if k == "call":
         return run_call(case)[0]
+    if k == "api2":
+        return run_api2(case)[1]
+    if k == "qw":
+        return run_qw(case)[1]
     if k == "keys":
         p = _pre(case)
         if p is not None and not p["div"]:
@@ -1053,6 +1333,10 @@ def oracle(case):
         v = run_api(case)[1]
     elif k == "call":
         v = run_call(case)[1]
+    elif k == "api2":
+        v = run_api2(case)[2]
+    elif k == "qw":
+        v = []
     else:
         p = _pre(case)
         v = p["viol"] if p is not None else run_keys(case)["viol"]
@@ -1619,8 +1903,147 @@ def gen_call_cases(tier, rng):
         yield {"kind": "call", "init": init, "app": cfg, "ops": steps}
 
 
+API2_INTS = [-7, -2, -1, 0, 1, 2, 3, 9]
+API2_COMPS = [[], [["alpha", 0]], [["x", -1], ["", 0], ["yy z", -2]], [["q", -9], ["r", 1]]]
+
+
+def api2_single_ops():
+    ops = []
+    for n in [None] + API2_INTS:
+        for last in (0, 1):
+            ops.append(["yank", n, last])
+    for i in [None] + API2_INTS:
+        ops.append(["gotoc", i])
+    for c in API2_INTS:
+        for w in (0, 1):
+            ops += [["cnext", c, w], ["cprev", c, w]]
+        ops += [["updown", c, 0], ["updown", c, 1]]
+        for g in (0, 1):
+            ops += [["aup", c, g], ["adown", c, g]]
+    ops.append(["ccancel"])
+    for st in (-9, -2, -1, 0, 1):
+        ops.append(["capply", "cm", st])
+    for cs in API2_COMPS:
+        ops.append(["setc", cs])
+    ops += [["copysel", 0], ["copysel", 1]]
+    for text in ("", "x", "p\nq"):
+        for ty in (0, 1, 2):
+            for mode in (0, 1, 2):
+                for count in (-1, 0, 1, 2):
+                    ops.append(["paste", text, ty, mode, count])
+    for r in ("", "Zz", "\n"):
+        ops.append(["tcl", r])
+    for f in API2_INTS:
+        for t in API2_INTS:
+            ops.append(["treg", f, t, "R"])
+    ops += [["joinn", " "], ["joinn", ""], ["joins", " "], ["joins", ""], ["swap"]]
+    for cm in (0, 1):
+        ops += [["nl", cm], ["ila", cm], ["ilb", cm]]
+    for t in ("", "q\n", "a\nb", "\n"):
+        ops.append(["edres", t])
+    ops += [["tl", "> ", [-5, -1, 0, 1, 7]], ["tl", "", [0, 0, 2]], ["tl", "#", []]]
+    ops += [["old", ["hback", c]] for c in (-1, 0, 1, 5)] + [["old", ["hfwd", c]] for c in (-1, 0, 1, 5)]
+    ops += [["old", ["goto", i]] for i in (0, 1, 2, 3)] + [["old", ["startsel", 1]], ["old", ["exitsel"]],
+                                                            ["old", ["undo"]], ["old", ["redo"]]]
+    return ops
+
+
+def rand_api2_op(rng, n, nlines):
+    RA = ["a", "b", " ", "\n", "世", "'", "\""]
+
+    def rt(k=4):
+        return "".join(rng.choice(RA) for _ in range(rng.randrange(0, k)))
+    ri = lambda: rng.choice(API2_INTS + [rng.randrange(-n - 2, n + 3)])  # noqa
+    k = rng.randrange(24)
+    if k == 0:
+        return ["yank", rng.choice([None, None, ri()]), rng.randrange(2)]
+    if k == 1:
+        return ["setc", [[rt(4), rng.choice([0, 0, -1, -2, -n, -n - 3])] for _ in range(rng.randrange(0, 4))]]
+    if k == 2:
+        return ["gotoc", rng.choice([None, 0, 1, 2, ri()])]
+    if k == 3:
+        return [rng.choice(["cnext", "cprev"]), rng.choice([1, 1, 2, 0, ri()]), rng.randrange(2)]
+    if k == 4:
+        return ["ccancel"]
+    if k == 5:
+        return ["capply", rt(4), rng.choice([0, -1, -2, -n - 1, 1])]
+    if k == 6:
+        return ["updown", rng.choice([1, 2, ri()]), rng.randrange(2)]
+    if k in (7, 8):
+        return [rng.choice(["aup", "adown"]), rng.choice([1, 1, 2, ri()]), rng.randrange(2)]
+    if k == 9:
+        return ["copysel", rng.randrange(2)]
+    if k == 10:
+        return ["paste", rt(5), rng.randrange(3), rng.randrange(3), rng.choice([1, 1, 2, 0, -1, 3])]
+    if k == 11:
+        return ["tcl", rt(4)]
+    if k == 12:
+        return ["treg", ri(), ri(), rt(3)]
+    if k == 13:
+        return ["joinn", rng.choice([" ", "", "--"])]
+    if k == 14:
+        return ["joins", rng.choice([" ", ""])]
+    if k == 15:
+        return ["swap"]
+    if k == 16:
+        return [rng.choice(["nl", "ila", "ilb"]), rng.randrange(2)]
+    if k == 17:
+        return ["edres", rt(6)]
+    if k == 18:
+        return ["tl", rt(3), [ri() for _ in range(rng.randrange(0, 4))]]
+    if k == 19:
+        return ["old", ["startsel", rng.randrange(3)]]
+    op = rand_api_op(rng, n, nlines, False)
+    while op[0] in ("widx", "search", "goto") and op[1] >= nlines or op[0] in ("appendleft", "reset", "cutsel"):
+        op = rand_api_op(rng, n, nlines, False)
+    return ["old", op]
+
+
+def gen_api2_cases(tier, rng):
+    import itertools
+    texts = ["", "a", "a b", "ab\ncd", "\n", " x\n  y z"]
+    hists = [[], ["   "], ["ls -l"], ["x", "  ", "a 'b c' \"d e\" f"]]
+    pres = [[], [["setc", API2_COMPS[2]]], [["setc", API2_COMPS[2]], ["gotoc", 0]], [["setc", API2_COMPS[2]], ["gotoc", 2]],
+            [["setc", API2_COMPS[0]]], [["yank", None, 1]], [["yank", 0, 0], ["yank", None, 0]]]
+    combos = []
+    for text in texts:
+        for cur in sorted({0, len(text) // 2, len(text)}):
+            for lines, idx in (([text], 0), (["h1 w", text, "z"], 1)):
+                for hist in hists:
+                    for ro in (0, 1):
+                        for sel in (None, [0, 0], [len(text), 1]):
+                            for pre in pres:
+                                combos.append((text, cur, lines, idx, hist, ro, sel, pre))
+    combos = rng.sample(combos, 70 if tier == "quick" else 1200)
+    single = api2_single_ops()
+    for (text, cur, lines, idx, hist, ro, sel, pre) in combos:
+        init = {"lines": lines, "idx": idx, "cur": cur, "ro": ro, "hs": 0, "hist": hist, "sel": sel}
+        yield {"kind": "api2", "init": init, "fresh": True, "ops": [[pre, op] for op in single]}
+    nrand = 1500 if tier == "quick" else 25000
+    for _ in range(nrand):
+        init = rand_init(rng)
+        init["hist"] = rng.choice(hists + [["one two", "", "'q' r"]])
+        init["sel"] = rng.choice([None, None, [rng.randrange(len(init["lines"][init["idx"]]) + 1), rng.randrange(3)]])
+        n, nlines = len(init["lines"][init["idx"]]), len(init["lines"])
+        yield {"kind": "api2", "init": init, "fresh": False,
+               "ops": [rand_api2_op(rng, max(n, 6), nlines) for _ in range(rng.randrange(1, 14))]}
+    # the _QUOTED_WORDS_RE scanner against `re`: every string over a 6-symbol alphabet up to a length bound
+    alpha = ["a", " ", "\"", "'", "\n", "\t"]
+    maxlen = 5 if tier == "quick" else 6
+    batch = []
+    for ln in range(maxlen + 1):
+        for tup in itertools.product(alpha, repeat=ln):
+            batch.append("".join(tup))
+            if len(batch) == 400:
+                yield {"kind": "qw", "texts": batch}
+                batch = []
+    for _ in range(400 if tier == "quick" else 4000):
+        batch.append("".join(rng.choice(alpha + ["b", "世", "\u00a0", "\r", "\x1c", "\u2028"]) for _ in range(rng.randrange(0, 16))))
+    yield {"kind": "qw", "texts": batch}
+
+
 def cases(tier, rng):
-    out = list(gen_api_cases(tier, rng)) + list(gen_call_cases(tier, rng))
+    out = list(gen_api_cases(tier, rng)) + list(gen_call_cases(tier, rng)) + list(gen_api2_cases(tier, rng))
     out += precompute_keys(gen_keys_cases(tier, rng))
     return out
 
@@ -1630,8 +2053,10 @@ def cases(tier, rng):
 # =====================================================================================
 def sample_view(case):
     c = {k: v for k, v in case.items() if k not in ("trace", "tkey")}
-    if case["kind"] == "api" and case.get("fresh"):
+    if case["kind"] in ("api", "api2") and case.get("fresh"):
         c["ops"] = case["ops"][:4] + [f"... {len(case['ops'])} single ops, each from a fresh init"]
+    if case["kind"] == "qw":
+        c["texts"] = case["texts"][:6] + [f"... {len(case['texts'])} lines"]
     if case["kind"] == "keys":
         p = _PRE.get(case.get("tkey"))
         if p:
@@ -1644,6 +2069,8 @@ def nontrivial(case):
         p = _PRE.get(case.get("tkey"))
         # at least one API call was made by a handler, or a handler ran (skeleton step)
         return bool(p) and (p["stats"]["prims"] > 0 or p["stats"]["handlers"] > 0)
+    if case["kind"] == "qw":
+        return len(case["texts"]) > 0
     return len(case["ops"]) > 0
 
 
@@ -1683,6 +2110,11 @@ def distribution(cases_):
         elif c["kind"] == "api":
             for op in c["ops"]:
                 d["api_ops"][op[0]] = d["api_ops"].get(op[0], 0) + 1
+        elif c["kind"] == "api2":
+            for op in c["ops"]:
+                o = op[1] if c.get("fresh") else op
+                name = "api2:" + (o[0] if o[0] != "old" else o[1][0])
+                d["api_ops"][name] = d["api_ops"].get(name, 0) + 1
     return d
 
 
